@@ -26,9 +26,9 @@ agg = Aggregator(session, top_level_only=False)
 m = agg.model
 ids = lambda a: sorted(f.id for f in a.fits)
 got = ids(agg.query((m.a == G) | (m.a == 1.0)))
-print("returned", got, "expected ['f0', 'f1', 'f2']")
-assert got == ["f2"], got
+print("returned", got, "expected ['f0', 'f1', 'f2']  (before 766ce6b: ['f2'])")
+assert got == ["f0", "f1", "f2"], got
 got = ids(agg.query((m.a == 1.0) | (m.a.b == 2.0)))
-print("returned", got, "expected ['f1', 'f2']")
-assert got == ["f2"], got
-print("reproduced: or-merge-inner-join")
+print("returned", got, "expected ['f1', 'f2']  (before 766ce6b: ['f2'])")
+assert got == ["f1", "f2"], got
+print("checked: or-merge-inner-join (fixed in 766ce6b)")
